@@ -300,10 +300,11 @@ void udp_mode() {
     int nsend = (int)gen_range(0, 5);
     for (int k = 0; k < nsend; k++) {
       int dst = (int)gen((uint32_t)n);
-      size_t len = 4 + gen(gen(2) ? 40 : 2000);
+      size_t len = gen(8) == 0 ? gen(4) : 4 + gen(gen(2) ? 40 : 2000);       // empty and tiny datagrams are datagrams too
       int serial = (int)S->dgrams.size();
       std::string d(len, 0);
-      d[0] = (char)(serial & 0xff); d[1] = (char)(serial >> 8); d[2] = (char)i; d[3] = (char)0xD6;
+      if (len >= 4) { d[0] = (char)(serial & 0xff); d[1] = (char)(serial >> 8); d[2] = (char)i; d[3] = (char)0xD6; }
+      else { for (size_t j = 0; j < len; j++) d[j] = (char)(0xE0 + i); if (len == 0) probe("data.empty_datagram_sent"); }
       for (size_t j = 4; j < len; j++) d[j] = (char)prf(1000 + serial, j);
       S->dgrams.push_back(d); S->dgram_sender.push_back(i);
       PSocketAddress *to = loopback(S->udp_ports[dst]);
@@ -334,15 +335,20 @@ void udp_mode() {
       }
       if ((size_t)r > blen) violate("receive_overran_buffer", "p_socket_receive_from", "receive_from(%zu) returned %zd", blen, (ssize_t)r);
       // identify: the first bytes carry the serial when the buffer was long enough; otherwise compare against all candidates
-      bool matched = false; int sender = -1;
-      for (size_t k = 0; k < S->dgrams.size() && !matched; k++) {
+      // every sent datagram this one can be (short ones are not unique): the reported source must be the sender of one of them
+      bool matched = false, source_ok = false; int sender = -1;
+      for (size_t k = 0; k < S->dgrams.size(); k++) {
         const std::string &d = S->dgrams[k];
         size_t expect = std::min(blen, d.size());
-        if ((size_t)r == expect && memcmp(d.data(), b, expect) == 0) { matched = true; sender = S->dgram_sender[k]; }
+        if ((size_t)r == expect && memcmp(d.data(), b, expect) == 0) {
+          matched = true; sender = S->dgram_sender[k];
+          if (from && p_socket_address_get_port(from) == S->udp_ports[sender]) source_ok = true;
+        }
       }
       if (!matched) violate("datagram_not_one_sent", "p_socket_receive_from", "a received datagram of %zd bytes (buffer %zu) is not one sent datagram cut to the buffer length", (ssize_t)r, blen);
-      if (!from) violate("no_source_address", "p_socket_receive_from", "receive_from returned no source address");
-      if (p_socket_address_get_port(from) != S->udp_ports[sender] && r >= 4)
+      if (!from) violate("no_source_address", "p_socket_receive_from", "receive_from returned a datagram of %zd bytes but no source address", (ssize_t)r);
+      if (r == 0) probe("data.empty_datagram_received");
+      if (!source_ok)
         violate("wrong_source_address", "p_socket_receive_from", "datagram from the socket bound to port %d reported as coming from port %d", S->udp_ports[sender], p_socket_address_get_port(from));
       if (p_socket_address_get_family(from) != S->fam) violate("wrong_source_address", "p_socket_receive_from", "source address has the wrong family");
       p_socket_address_free(from);
